@@ -193,3 +193,121 @@ func globRef(pat, s string) bool {
 	}
 	return refmodel.GlobMatch(toks, s)
 }
+
+// ---- strings that defeat hashing instead of comparing ----
+//
+// The Thue-Morse sequence t(n) over two letters and its complement have the same polynomial hash modulo 2^64
+// for EVERY base once n reaches 2^10 - 2^11 (the classic counter-example to hashing with integer overflow), and
+// equal sums / xors of their letters at every power of two. A matcher that locates or compares literal runs by a
+// fingerprint takes the one for the other.
+
+type c13HashCase struct {
+	LogN  int    `json:"log_n"`
+	Form  int    `json:"form"` // pattern shapes, see c13HashForms
+	Pair  string `json:"letters"`
+	Where int    `json:"where"` // what surrounds the complement in the string: 0 nothing, 1 x..y, 2 the genuine text's first half before it
+}
+
+func (c *c13HashCase) Weight() int { return c.LogN }
+
+var c13HashForms = []string{"*T*", "id=*T*;", "*T", "T*", "a*T*b", "*T*T*"}
+
+func thueMorse(n int, a, b byte) []byte {
+	out := make([]byte, n)
+	for i := range out {
+		x, p := i, 0
+		for x > 0 {
+			p ^= x & 1
+			x >>= 1
+		}
+		if p == 0 {
+			out[i] = a
+		} else {
+			out[i] = b
+		}
+	}
+	return out
+}
+
+func c13HashSub() *engine.Sub {
+	return &engine.Sub{
+		Name: "strings-that-defeat-fingerprints",
+		Rule: "patterns *T*, id=*T*;, *T, T*, a*T*b, *T*T* where T is the Thue-Morse sequence of length 2^k (k = 1 .. 13) over the letter pairs a/b, 0/1 and a/NUL-free b/c; strings that hold the COMPLEMENT of T (letters swapped: equal length, equal letter counts, equal polynomial hash modulo 2^64 for every base once k >= 10..11) bare, inside x..y, and after the first half of T - and the strings that hold T itself: like is true exactly when the string is in the language (reference: strings.Contains / HasPrefix / HasSuffix on the literal runs, no hashing); non-trivial = all",
+		Bound: func(string) string { return fmt.Sprintf("13 lengths x %d pattern shapes x 3 letter pairs x 3 surroundings x {complement, genuine}", len(c13HashForms)) },
+		Gen: func(tier string, emit func(any) bool) {
+			for k := 1; k <= 13; k++ {
+				for f := range c13HashForms {
+					for _, pr := range []string{"ab", "01", "bc"} {
+						for w := 0; w < 3; w++ {
+							if !emit(&c13HashCase{k, f, pr, w}) {
+								return
+							}
+						}
+					}
+				}
+			}
+		},
+		NewCase: func() any { return &c13HashCase{} },
+		Run: func(ctx *engine.Ctx, c any) {
+			cs := c.(*c13HashCase)
+			n := 1 << cs.LogN
+			T := string(thueMorse(n, cs.Pair[0], cs.Pair[1]))
+			C := string(thueMorse(n, cs.Pair[1], cs.Pair[0]))
+			pat := strings.ReplaceAll(c13HashForms[cs.Form], "T", T)
+			pol, err := policy.Construct(policy.Like(".s", pat))
+			ctx.States(1)
+			ctx.Nontrivial(1)
+			if err != nil {
+				ctx.Failf(cs, "glob/constructor-acceptance", "valid pattern of shape %s with |T| = %d rejected: %v", c13HashForms[cs.Form], n, err)
+				return
+			}
+			wrap := func(core string) string {
+				switch cs.Where {
+				case 1:
+					return "x" + core + "y"
+				case 2:
+					return T[:n/2] + core
+				}
+				return core
+			}
+			dress := func(core string) string { // put the core where the pattern shape wants its fixed parts
+				switch c13HashForms[cs.Form] {
+				case "id=*T*;":
+					return "id=" + core + ";"
+				case "a*T*b":
+					return "a" + core + "b"
+				}
+				return core
+			}
+			// reference: the language of each shape, by plain string search
+			ref := func(s string) bool {
+				switch c13HashForms[cs.Form] {
+				case "*T*":
+					return strings.Contains(s, T)
+				case "id=*T*;":
+					return len(s) >= 4+n && strings.HasPrefix(s, "id=") && strings.HasSuffix(s, ";") && strings.Contains(s[3:len(s)-1], T)
+				case "*T":
+					return strings.HasSuffix(s, T)
+				case "T*":
+					return strings.HasPrefix(s, T)
+				case "a*T*b":
+					return len(s) >= 2+n && s[0] == 'a' && s[len(s)-1] == 'b' && strings.Contains(s[1:len(s)-1], T)
+				default: // *T*T*
+					i := strings.Index(s, T)
+					return i >= 0 && strings.Contains(s[i+n:], T)
+				}
+			}
+			for _, core := range []string{wrap(C), wrap(T), wrap(C + T), wrap(T + C + T)} {
+				s := dress(core)
+				want := ref(s)
+				got, _ := pol.Match(nMap(kv{"s", nStr(s)}))
+				ctx.Eval(1)
+				ctx.Trans(1)
+				ctx.Outcome(fmt.Sprint(got))
+				if got != want {
+					ctx.Failf(cs, "glob/fingerprint-instead-of-comparison/"+c13HashForms[cs.Form], "like %s (T = Thue-Morse sequence of %d letters over %q) on a string of %d bytes built from T and its complement gives %v, the string %s in the language", c13HashForms[cs.Form], n, cs.Pair, len(s), got, map[bool]string{true: "is", false: "is not"}[want])
+				}
+			}
+		},
+	}
+}
